@@ -247,8 +247,10 @@ if __name__ == "__main__":
     if len(sys.argv) > 1 and sys.argv[1] == "--record":
         record(force="--force" in sys.argv)
         sys.exit(0)
+    import translate_c06
     common.run_check("C06", module="Bermuda.Properties.C06", driver_targets=["drv_c06"],
-                     correspondence=correspondence, level="proof",
+                     correspondence=correspondence, level="proof", extra_translate=translate_c06.regenerate,
                      rule=RULE, assumptions=c05.ASSUMPTIONS + [
                          "order independence: cells at the same coordinate are identical cells (C01.ofCells_perm_invariant)"],
-                     trusted=c05.TRUSTED + ["corpus/golden, corpus/pinned: recorded once from the verified tree (sha256 pinned)"])
+                     trusted=c05.TRUSTED + ["harness/translate_c06.py: struct formats observed through a recording proxy of the struct module",
+                                             "corpus/golden, corpus/pinned: recorded once from the verified tree (sha256 pinned)"])
